@@ -110,6 +110,10 @@ class FakeRawSocket:
         self.stall_recvs.append(self.timeout)
         if self.timeout is None:
             raise Hang("recv() on a socket without timeout while the peer is silent")
+        # the peer stays silent for ever: every further recv() at this stall point costs another full timeout
+        self.stall_timeouts = getattr(self, "stall_timeouts", 0) + 1
+        if self.stall_timeouts > 3:
+            raise Hang("recv() retried again and again at the same stall point: blocked past the configured timeout")
         raise TimeoutError("timed out")
 
     def pending_bytes(self):
